@@ -454,6 +454,28 @@ def r_ptb(repo, rep, writer_only=False, RT='R20.6', RE='R20.5'):
                     opened = True
     rep.check(opened, 'R20.6', wr, '_parse_ptb:open', 'an item starting with "(" pushes the category parsed from the text after the bracket',
               'opening items are not parsed as "(" + category')
+    # ... and only an item that does not start with "(" is a word: a category text may itself end with ")" -- ((S\NP)/(S\NP) -- so the
+    # opening test comes first; an item is handed to the word / closing routine only where it is known not to open a node
+    closers = {red.name, red_c[0].name}
+    late = []
+    n_close = 0
+    for st, o in SymExec(rc_, unroll=1).run():
+        for e in st.events:
+            if e[0] != 'call' or not ((e[1][1][0] == 'name' and e[1][1][1] in closers) or (e[1][1][0] == 'func' and e[1][1][1] in closers)) or not e[1][2]:
+                continue
+            item_t = e[1][2][0]
+            n_close += 1
+            guards = [(c, pol) for c, pol, _ in st.conds]
+            not_open = any((not pol) and ((c[0] == 'cmp' and c[1] == '==' and c[3] == C('(') and c[2] == ('sub', item_t, C(0)))
+                                          or (c[0] == 'call' and c[1] == A(item_t, 'startswith') and c[2] == (C('('),))) for c, pol in guards) or \
+                any(pol and c[0] == 'cmp' and c[1] == '!=' and c[3] == C('(') and c[2] == ('sub', item_t, C(0)) for c, pol in guards)
+            if not not_open:
+                late.append(e[-1])
+    if n_close:
+        rep.check(not late, 'R20.6', '%s:%s _parse_ptb' % (RD, late[0].lineno if late else rc_.lineno), '_parse_ptb:open-first',
+                  'an item reaches the closing routine only where it is known not to start with "(" (%d call sites on paths)' % n_close,
+                  'an item is taken for a word with closing brackets before it was tested for an opening bracket: a category text that ends with ")" -- '
+                  '((S\\NP)/(S\\NP), (S[X]/(S[X]\\NP) -- is then not opened as a node and the line the printer wrote is rejected')
     # children order: trees are popped right-to-left, so the first popped is the right child
     okord = False
     detail = ''
